@@ -231,7 +231,22 @@ def _run(prop, tier, prof, replay_path, t0, sd, work):
             if isinstance(op.get("k"), int):
                 nkeys = max(nkeys, op["k"])
     # 3. replay on the real tree
-    trace, summary = vlib.harness_replay(behaviours, work, prop, nkeys, prof.get("harness_args", []))
+    try:
+        trace, summary = vlib.harness_replay(behaviours, work, prop, nkeys, prof.get("harness_args", []))
+    except vlib.HarnessHang as hg:
+        # a call that never returns serves nothing: held against whatever property is checked
+        beh = behaviours[hg.beh]
+        cut = dict(beh, ops=beh["ops"][:max(hg.step, 1)])
+        pth = vlib.save_replay(prop, cut, {"what": "HANG", "step": hg.step,
+                                         "detail": "the operation used 90 s of CPU time without returning"})
+        print(f"VIOLATION property={prop} replay={pth}")
+        log(f"[{prop}] HANG behaviour {hg.beh} step {hg.step}: the operation did not return")
+        vlib.write_evidence(prop, tier, "model_checking",
+                            {"states": (verify or {}).get("distinct", 1), "transitions": (verify or {}).get("generated", 1),
+                             "traces_validated_against_impl": hg.beh, "hang": {"behaviour": hg.beh, "step": hg.step},
+                             "exhaustive": False},
+                            time.time() - t0, 1, prof.get("assumptions", []))
+        return 1
     log(f"[{prop}] replayed {summary} t={round(time.time()-t0)}s")
     # 4. validate the recorded traces
     msgs, lines = vlib.validate_trace(trace, work, prop, nkeys, par=tp.get("par", 8))
